@@ -508,6 +508,144 @@ def slow_run(proto, n, delay=0.15):
     return {"out": outs, "notes": notes}
 
 
+def mixed_run(kind, reps=1):
+    """first use from one thread while another thread does something else on the same object (call it in a forked child):
+    has-during-load: A makes the first hash() of a fresh many-backend hasher whose loader waits; B asks has_backend() meanwhile
+    list-during-load: A enumerates the registry in a loop while B..E look up every unloaded name for the first time
+    records-first-call: the first identify()/verify() calls of fresh multi-scheme contexts, from several threads at once
+    -> {"bad": [descriptions], "runs": n}"""
+    import hashlib
+
+    bad, runs = [], 0
+    sys.setswitchinterval(1e-6)
+    if kind == "has-during-load":
+        import passlib.utils.handlers as uh
+
+        for rep in range(reps):
+            class c19_slow_backend(uh.HasManyBackends, uh.StaticHandler):
+                name = "c19_slow_backend"
+                backends = ("first", "second")
+                checksum_chars = uh.LOWER_HEX_CHARS
+                checksum_size = 32
+
+                @classmethod
+                def _load_backend_first(cls):
+                    time.sleep(0.12)
+                    cls._set_calc_checksum_backend(cls._calc_first)
+                    time.sleep(0.12)
+                    return True
+
+                @classmethod
+                def _load_backend_second(cls):
+                    cls._set_calc_checksum_backend(cls._calc_first)
+                    return True
+
+                def _calc_first(self, secret):
+                    return hashlib.md5(secret if isinstance(secret, bytes) else secret.encode()).hexdigest()
+
+            h = c19_slow_backend
+            want = hashlib.md5(b"letmein").hexdigest()
+            out = {}
+
+            def A():
+                try:
+                    out["A"] = h.hash("letmein")
+                except BaseException as e:  # noqa: BLE001
+                    out["A"] = canon_exc(e)
+
+            def B(which):
+                time.sleep(0.05 + 0.1 * (rep % 2))
+                try:
+                    out["B"] = h.has_backend(which)
+                except BaseException as e:  # noqa: BLE001
+                    out["B"] = canon_exc(e)
+
+            which = ("first", "second", "any")[rep % 3]
+            ta, tb = threading.Thread(target=A), threading.Thread(target=B, args=(which,))
+            ta.start()
+            tb.start()
+            ta.join(30)
+            tb.join(30)
+            try:
+                later = h.verify("letmein", want)
+            except BaseException as e:  # noqa: BLE001
+                later = canon_exc(e)
+            runs += 1
+            if out.get("A") != want or out.get("B") is not True or later is not True:
+                bad.append({"first_hash": out.get("A"), "has_backend(%s)" % which: out.get("B"), "verify_afterwards": later, "expected": [want, True, True]})
+    elif kind == "list-during-load":
+        from passlib import registry
+
+        names = [n for n in registry.list_crypt_handlers() if n not in registry.list_crypt_handlers(loaded_only=True)]
+        stop = threading.Event()
+        errs, counts = [], [0]
+
+        def lister():
+            while not stop.is_set():
+                try:
+                    got = registry.list_crypt_handlers()
+                    counts[0] += 1
+                    if "md5_crypt" not in got or got != sorted(got):
+                        errs.append("list without md5_crypt / unsorted")
+                except BaseException as e:  # noqa: BLE001
+                    errs.append(canon_exc(e) + ": " + str(e)[:80])
+
+        def loader(part):
+            for n in part:
+                try:
+                    hh = registry.get_crypt_handler(n)
+                    if hh.name != n:
+                        errs.append(f"{n} -> {hh.name}")
+                except BaseException as e:  # noqa: BLE001
+                    if "MissingBackend" not in type(e).__name__:
+                        errs.append(n + ": " + canon_exc(e))
+
+        tl = [threading.Thread(target=lister) for _ in range(2)]
+        tw = [threading.Thread(target=loader, args=(names[i::4],)) for i in range(4)]
+        for t in tl + tw:
+            t.start()
+        for t in tw:
+            t.join(60)
+        stop.set()
+        for t in tl:
+            t.join(10)
+        runs = counts[0]
+        if errs:
+            bad.append({"errors": errs[:3], "failed_enumerations_or_lookups": len(errs), "enumerations": counts[0], "first_lookups": len(names)})
+    elif kind == "records-first-call":
+        from passlib.context import CryptContext, LazyCryptContext
+        from passlib.hash import des_crypt, ldap_md5, md5_crypt
+
+        samples = {"md5_crypt": md5_crypt.hash("pw"), "ldap_md5": ldap_md5.hash("pw"), "des_crypt": des_crypt.hash("pw")}
+        for rep in range(reps):
+            schemes = ["sha256_crypt", "sha512_crypt", "des_crypt", "ldap_md5", "md5_crypt"]
+            c = CryptContext(schemes=schemes) if rep % 2 == 0 else LazyCryptContext(schemes=schemes)
+            cat = None if rep % 3 else "admin"
+            bar = threading.Barrier(4)
+            outs = [None] * 4
+
+            def body(i):
+                nm = ("md5_crypt", "ldap_md5", "des_crypt", "md5_crypt")[i]
+                bar.wait()
+                try:
+                    outs[i] = (c.identify(samples[nm], category=cat), c.verify("pw", samples[nm], category=cat), nm)
+                except BaseException as e:  # noqa: BLE001
+                    outs[i] = (canon_exc(e), None, nm)
+
+            ths = [threading.Thread(target=body, args=(i,)) for i in range(4)]
+            for t in ths:
+                t.start()
+            for t in ths:
+                t.join(30)
+            runs += 1
+            wrong = [o for o in outs if o is None or o[0] != o[2] or o[1] is not True]
+            if wrong:
+                bad.append({"first_calls": wrong[:2], "context": type(c).__name__, "category": cat, "expected": "(scheme name, True)"})
+                if len(bad) >= 3:
+                    break
+    return {"bad": bad, "runs": runs}
+
+
 # ---------------------------------------------------------------------------------------------------------------------
 # worker process: one protocol, many schedules (each in a forked child)
 # ---------------------------------------------------------------------------------------------------------------------
@@ -525,6 +663,8 @@ def worker_main():
         out["runs"].append(forked(lambda sch=sch: scheduled_run(proto, req["n"], sch, req["points"], target=Target(proto))))
     for _ in range(req.get("free", 0)):
         out["free"].append(forked(lambda: free_run(proto, req.get("free_n", 8), target=Target(proto))))
+    for kind, reps in (req.get("mixed") or {}).items():
+        out.setdefault("mixed", {})[kind] = forked(lambda kind=kind, reps=reps: mixed_run(kind, reps), timeout=300.0)
     for _ in range(req.get("slow", 0)):
         out.setdefault("slow", []).append(forked(lambda: slow_run(proto, req.get("slow_n", 4))))
     json.dump(out, sys.stdout)
